@@ -183,6 +183,32 @@ plain_coll!(Imports, 8, "imports", ImportId, imports,
             let mut v = vec![k, x]; v.extend(enc_str(&i.name)); v },
     itermut: true);
 
+
+// ---- ModuleCustomSections (a TombstoneArena of Option<Box<dyn CustomSection>>): absence is an explicit None, mapped to a panic here ----
+#[derive(Debug)] pub struct ProbeA { pub name: String, pub data: Vec<u8> }
+#[derive(Debug)] pub struct ProbeB { pub name: String, pub data: Vec<u8> }
+impl walrus::CustomSection for ProbeA { fn name(&self) -> &str { &self.name } fn data(&self, _: &walrus::IdsToIndices) -> std::borrow::Cow<[u8]> { std::borrow::Cow::Borrowed(&self.data) } }
+impl walrus::CustomSection for ProbeB { fn name(&self) -> &str { &self.name } fn data(&self, _: &walrus::IdsToIndices) -> std::borrow::Cow<[u8]> { std::borrow::Cow::Borrowed(&self.data) } }
+const CUSTOM_NAMES: [&str; 3] = ["alpha", "beta", "verif-probe"];
+fn enc_custom(s: &dyn walrus::CustomSection) -> Item {
+    let k = if s.as_any().is::<walrus::RawCustomSection>() { 0 } else if s.as_any().is::<ProbeA>() { 1 } else { 2 };
+    let mut v = vec![k, CUSTOM_NAMES.iter().position(|n| *n == s.name()).unwrap_or(99) as u64]; v.extend(s.data(&Default::default()).iter().map(|b| *b as u64)); v }
+fn add_custom(m: &mut Module, it: &Item) -> walrus::UntypedCustomSectionId {
+    let name = CUSTOM_NAMES[it[1] as usize].to_string(); let data: Vec<u8> = it[2..].iter().map(|b| *b as u8).collect();
+    match it[0] { 0 => m.customs.add(walrus::RawCustomSection { name, data }).into(), 1 => m.customs.add(ProbeA { name, data }).into(), _ => m.customs.add(ProbeB { name, data }).into() } }
+struct Customs { m: Module, ids: Vec<walrus::UntypedCustomSectionId> }
+impl Coll for Customs {
+    fn kind(&self) -> u64 { 9 }
+    fn name(&self) -> &'static str { "custom sections" }
+    fn gen_item(&mut self, r: &mut Rng) -> Item { vec![r.below(3), r.below(3), r.below(4)] }
+    fn add(&mut self, it: &Item) -> usize { let id = add_custom(&mut self.m, it); self.ids.push(id); self.ids.len() - 1 }
+    fn delete(&mut self, id: usize) { if self.m.customs.delete(self.ids[id]).is_none() { panic!("absent") } }
+    fn get(&self, id: usize) -> Item { enc_custom(self.m.customs.get(self.ids[id]).expect("absent")) }
+    fn iter(&self) -> Vec<(usize, Item)> { self.m.customs.iter().map(|(id, s)| (self.ids.iter().position(|x| *x == id).unwrap_or(usize::MAX), enc_custom(s))).collect() }
+    fn iter_mut(&mut self) -> Option<Vec<(usize, Item)>> { let ids = self.ids.clone(); Some(self.m.customs.iter_mut().map(|(id, s)| (ids.iter().position(|x| *x == id).unwrap_or(usize::MAX), enc_custom(&*s))).collect()) }
+    fn get_mut_resolves(&mut self, id: usize) -> Option<bool> { let i = *self.ids.get(id)?; Some(self.m.customs.get_mut(i).is_some()) }
+}
+
 fn fresh(kind: u64) -> Box<dyn Coll> {
     // every collection starts from a module whose collection under test is empty:
     // the Aux entities live in *other* collections of the same module, so for the
@@ -200,6 +226,7 @@ fn fresh(kind: u64) -> Box<dyn Coll> {
         4 => Box::new(Globals { m: Module::default(), ids: vec![], aux: Aux { funcs: vec![], globals: vec![], mems: vec![], tables: vec![], tys: vec![], imports: vec![] } }),
         5 => Box::new(Tables { m: Module::default(), ids: vec![], aux: Aux { funcs: vec![], globals: vec![], mems: vec![], tables: vec![], tys: vec![], imports: vec![] } }),
         6 => Box::new(Datas { m, ids: vec![], aux }),
+        9 => Box::new(Customs { m: Module::default(), ids: vec![] }),
         7 => Box::new(Elems { m, ids: vec![], aux }),
         _ => { let mut mm = Module::default(); let t0 = mm.types.add(&[], &[]);
                // functions/globals referred to by imports, created without going through `imports`
@@ -318,12 +345,12 @@ pub fn main(args: &[String]) {
     let mut r = Rng::new(seed);
     let mut w = CaseWriter::new(out_dir, "c17", "From WV Require Import Model.Arena Run.ArenaRun.", "(N * list (op item) * list (out item))", "check_case", 250);
     let mut hist: Vec<(u64, Vec<Op>)> = vec![];
-    for kind in 0..9u64 { for l in 1..=exh_len { let mut v = vec![]; enumerate(kind, l, &mut v);
+    for kind in 0..10u64 { for l in 1..=exh_len { let mut v = vec![]; enumerate(kind, l, &mut v);
         // ids referring to de-duplicated adds may be out of range for types: filtered at run time
         for ops in v { hist.push((kind, ops)); } } }
     let n_exh = hist.len();
-    for i in 0..n_random { let kind = (i % 9) as u64; hist.push((kind, gen_history(kind, &mut r, 14))); }
-    let mut oracle_viol = vec![]; let mut samples = vec![]; let mut per_kind = vec![0u64; 9]; let mut op_hist = [0u64; 6]; let mut panics = 0u64; let mut dedups = 0u64; let mut total_steps = 0u64;
+    for i in 0..n_random { let kind = (i % 10) as u64; hist.push((kind, gen_history(kind, &mut r, 14))); }
+    let mut oracle_viol = vec![]; let mut samples = vec![]; let mut per_kind = vec![0u64; 10]; let mut op_hist = [0u64; 6]; let mut panics = 0u64; let mut dedups = 0u64; let mut total_steps = 0u64;
     // the type set next to the hidden per-function ENTRY types (FunctionBuilder::new adds one for every function built): `find` and `add`
     // never resolve to an entry type, find = the first live ordinary type with that signature, add of a present signature returns it
     let mut n_entry_hist = 0u64;
@@ -379,6 +406,33 @@ pub fn main(args: &[String]) {
             None });
         match res { Some(None) => {}, Some(Some(v)) => oracle_viol.push(Json::obj(vec![("kind", Json::Num(8.0)), ("what", Json::Str(format!("deletion by name: {}", v))), ("case", Json::Str(String::new()))])),
             None => oracle_viol.push(Json::obj(vec![("kind", Json::Num(8.0)), ("what", Json::Str("deletion by name: an operation panicked".into())), ("case", Json::Str(String::new()))])) } } }
+    // custom sections BY NAME and BY TYPE (remove_raw, delete_typed, get_typed): remove_raw(name) takes exactly the first live UNINTERPRETED section of that
+    // name (a typed section of the same name is not touched), delete_typed::<T> exactly the first live section of type T; an absent name / type deletes nothing
+    { let mut rr = Rng::new(seed ^ 0xC057); let n_hist = if n_random > 1000 { 800 } else { 120 };
+      for h in 0..n_hist { let res = catch(|| -> Option<String> {
+            let mut m = Module::default(); let mut secs: Vec<(walrus::UntypedCustomSectionId, Item, bool)> = vec![]; let mut log: Vec<String> = vec![];
+            for step in 0..(4 + rr.usize(10)) { match rr.below(8) {
+                0 | 1 | 2 => { let it: Item = vec![rr.below(3), rr.below(3), rr.below(4)]; let id = add_custom(&mut m, &it); log.push(format!("add {:?}", it)); secs.push((id, it, true)); }
+                3 | 4 => { let nk = rr.below(3); let nm = CUSTOM_NAMES[nk as usize]; let want = secs.iter().position(|x| x.2 && x.1[0] == 0 && x.1[1] == nk);
+                       let got = m.customs.remove_raw(nm); log.push(format!("remove_raw {}", nm));
+                       match (want, got) { (Some(k), Some(g)) => { if g.name != nm || g.data.iter().map(|b| *b as u64).collect::<Vec<_>>() != secs[k].1[2..] { return Some(format!("history {} step {}: remove_raw({}) returned another section [{}]", h, step, nm, log.join("; "))); } secs[k].2 = false; }
+                           (None, None) => {}
+                           (w, g) => return Some(format!("history {} step {}: remove_raw({}) returned {:?}, the first live uninterpreted section of that name is {:?} [{}]", h, step, nm, g.map(|x| x.name), w.map(|k| secs[k].0), log.join("; "))) } }
+                5 => { let a = rr.chance(1, 2); let want = secs.iter().position(|x| x.2 && x.1[0] == if a { 1 } else { 2 });
+                       let got: Option<(String, Vec<u8>)> = if a { m.customs.delete_typed::<ProbeA>().map(|p| (p.name.clone(), p.data.clone())) } else { m.customs.delete_typed::<ProbeB>().map(|p| (p.name.clone(), p.data.clone())) }; log.push(format!("delete_typed {}", if a { "A" } else { "B" }));
+                       match (want, got) { (Some(k), Some(g)) => { if g.0 != CUSTOM_NAMES[secs[k].1[1] as usize] || g.1.iter().map(|b| *b as u64).collect::<Vec<_>>() != secs[k].1[2..] { return Some(format!("history {} step {}: delete_typed returned another section [{}]", h, step, log.join("; "))); } secs[k].2 = false; }
+                           (None, None) => {}
+                           (w, g) => return Some(format!("history {} step {}: delete_typed returned {:?}, the first live section of that type is {:?} [{}]", h, step, g.map(|x| x.0), w.map(|k| secs[k].0), log.join("; "))) } }
+                6 => { let livek: Vec<usize> = secs.iter().enumerate().filter(|(_, x)| x.2).map(|(k, _)| k).collect(); if !livek.is_empty() { let k = *rr.pick(&livek); log.push(format!("delete id {:?}", secs[k].0)); if m.customs.delete(secs[k].0).is_none() { return Some(format!("history {} step {}: delete of a live identifier reported absence [{}]", h, step, log.join("; "))); } secs[k].2 = false; } }
+                _ => { let wa = secs.iter().find(|x| x.2 && x.1[0] == 1).map(|x| x.1.clone()); let ga = m.customs.get_typed::<ProbeA>().map(|p| enc_custom(p));
+                       if wa != ga { return Some(format!("history {} step {}: get_typed returned {:?}, the first live section of that type is {:?} [{}]", h, step, ga, wa, log.join("; "))); } } }
+                // after every step: exactly the sections believed live are live, in creation order, each still denoting its item; dead ids resolve to nothing
+                let live: Vec<(walrus::UntypedCustomSectionId, Item)> = m.customs.iter().map(|(id, s)| (id, enc_custom(s))).collect(); let want: Vec<(walrus::UntypedCustomSectionId, Item)> = secs.iter().filter(|x| x.2).map(|x| (x.0, x.1.clone())).collect();
+                if live != want { return Some(format!("history {} step {}: live custom sections are {:?}, expected {:?} (deletion by name / type is not isolated) [{}]", h, step, live, want, log.join("; "))); }
+                for x in &secs { let g = m.customs.get(x.0).map(|s| enc_custom(s)); if g != if x.2 { Some(x.1.clone()) } else { None } { return Some(format!("history {} step {}: identifier {:?} resolves to {:?} [{}]", h, step, x.0, g, log.join("; "))); } } }
+            None });
+        match res { Some(None) => {}, Some(Some(v)) => oracle_viol.push(Json::obj(vec![("kind", Json::Num(9.0)), ("what", Json::Str(format!("custom sections by name / type: {}", v))), ("case", Json::Str(String::new()))])),
+            None => oracle_viol.push(Json::obj(vec![("kind", Json::Num(9.0)), ("what", Json::Str("custom sections by name / type: an operation panicked".into())), ("case", Json::Str(String::new()))])) } } }
     let mut seen = std::collections::HashSet::new(); let mut nontrivial = 0u64;
     for (kind, ops) in &hist {
         // drop ids that were never handed out (possible for types because of de-duplication)
